@@ -131,9 +131,13 @@ def cond_atoms(c, ints=None, env=None, _canon=None):
             fl = [_is_float_node(x) for x in n["inner"]]
             isint = ints if ints is not None else not any(f is True for f in fl)
             try:
-                d = cn.ratio(ceval.to_expr(n["inner"][0], env or {})) - cn.ratio(ceval.to_expr(n["inner"][1], env or {}))
+                ra, rb = cn.ratio(ceval.to_expr(n["inner"][0], env or {})), cn.ratio(ceval.to_expr(n["inner"][1], env or {}))
+                d = ra - rb
             except Undecided:
                 return ('opaque', text(n).replace(" ", ""))
+            if not isint and d.is_zero() and n["opcode"] in ("!=", "=="):
+                t = ('isnan', repr(ra))          # x != x is the portable spelling of isnan(x)
+                return t if n["opcode"] == "!=" else ('not', t)
             return Atom(n["opcode"], d, isint)
         try:
             e = ceval.to_expr(n, env or {})
@@ -148,12 +152,19 @@ def cond_atoms(c, ints=None, env=None, _canon=None):
         return _negate(cond_atoms(c[1], ints, env, cn))
     if k == 'cmp':
         try:
-            d = cn.ratio(c[2]) - cn.ratio(c[3])
+            ra, rb = cn.ratio(c[2]), cn.ratio(c[3])
+            d = ra - rb
         except Undecided:
             return ('opaque', show(c))
+        if d.is_zero() and c[1] in ("!=", "==") and ints is not True:
+            t = ('isnan', repr(ra))
+            return t if c[1] == "!=" else ('not', t)
         return Atom(c[1], d, isint)
-    if k == 'call' and c[1] in ('isnan', 'isinf'):
-        return ('opaque', k + ":" + repr(cn.ratio(c)))
+    if k == 'call' and c[1] in ('isnan', 'isinf') and len(c[2]) == 1:
+        try:
+            return (c[1], repr(cn.ratio(c[2][0])))
+        except Undecided:
+            return ('opaque', show(c))
     try:
         d = cn.ratio(c)          # a bare value used as a truth value:  x  <=>  x != 0
     except Undecided:
